@@ -1,0 +1,1033 @@
+//go:build verif
+
+package redisemu
+
+// Store-level contracts: lock discipline (C08/C16), key object type invariant
+// (C06), dirty marking (C19). The per-method blocks at the end are generated
+// by /verif/scripts/gen_store_contracts.py; the primitives are written by hand.
+
+//@ immutable dataStoreCommand.ds dataStoreCommand.id dataStore.data dataStore.waitingClients
+//@ ghost held bool
+//@ ghost mutated bool
+
+// store state may only be touched while the store lock is held
+//@ guarded dataStore.data dataStore.dataObjectNumber dataStore.waitingClients dataStore.cursors redisDict.* redisDictItem.* storeKey.* storeList.* listItem.* by held
+// writes that change what a key holds
+//@ onwrite storeKey.flags storeKey.payload storeKey.expiresAt storeKey.id storeList.* listItem.* set mutated
+
+// a key object's type tag matches its payload
+//@ pred skWF(sk *storeKey) = (flagHasOne(sk.flags, FLAG_KEY_TYPE_STRING) ==> istype(sk.payload, []byte) && unbox(sk.payload, []byte) != nil) && (flagHasOne(sk.flags, FLAG_KEY_TYPE_LIST) ==> istype(sk.payload, *storeList) && unbox(sk.payload, *storeList) != nil) && (flagHasOne(sk.flags, FLAG_KEY_TYPE_HASH_TABLE) ==> istype(sk.payload, *redisDict) && unbox(sk.payload, *redisDict) != nil) && (flagHasOne(sk.flags, FLAG_KEY_TYPE_SET) ==> istype(sk.payload, *redisDict) && unbox(sk.payload, *redisDict) != nil)
+//@ typeinv storeKey skWF
+
+//@ pred dscOK(dsc *dataStoreCommand) = dsc != nil && dsc.ds != nil && dsc.ds.data != nil && dsc.ds.waitingClients != nil
+
+//@ func flagHasOne
+//@ inline
+//@ func flagHasAll
+//@ inline
+//@ func flagSet
+//@ inline
+//@ func flagClear
+//@ inline
+//@ func storeKey.isExpiredUnlocked
+//@ inline
+
+// ---- lock wrapper (re-entrant under EXEC through multiLock; one acquisition per command otherwise)
+
+//@ func dataStoreCommand.lock
+//@ trusted CAS on multiLock then ds.mu.Lock(); modelled as acquiring the store lock once
+//@ requires dsc != nil && dsc.ds != nil
+//@ requires [C08,C16] once: !held
+//@ effect held = true
+
+//@ func dataStoreCommand.unlock
+//@ trusted releases what lock() acquired
+//@ requires dsc != nil && dsc.ds != nil
+//@ requires [C08,C16] isheld: held
+//@ effect held = false
+
+//@ func dataStoreCommand.unlockAndUnblock
+//@ trusted wakes waiters while the lock is still held, then releases it
+//@ requires dsc != nil && dsc.ds != nil && uk != nil
+//@ requires [C08,C16] isheld: held
+//@ modifies waitTable objectWaitList wakeSignal signalListTuple unblockKey
+//@ effect held = false
+
+//@ func dataStoreCommand.acquireExclusive
+//@ trusted
+//@ requires dsc != nil && dsc.ds != nil
+//@ requires [C08,C16] once: !held
+//@ effect held = true
+
+//@ func dataStoreCommand.releaseExclusive
+//@ trusted
+//@ requires dsc != nil && dsc.ds != nil
+//@ requires [C08,C16] isheld: held
+//@ effect held = false
+
+// ---- keyspace dictionary (contracts assumed here; proved against the dict representation under C04)
+
+//@ func newRedisDict
+//@ trusted allocation of an empty table
+//@ modifies alloc redisDict
+//@ ensures result != nil && result.count == 0
+
+//@ func redisDict.get
+//@ trusted
+//@ pure
+//@ requires rd != nil
+//@ requires [C08,C16] locked: held
+
+//@ func redisDict.store
+//@ trusted
+//@ requires rd != nil
+//@ requires [C08,C16] locked: held
+//@ modifies redisDict redisDictItem alloc
+//@ ensures rd.dirty && rd.count >= 1
+//@ effect mutated = true
+
+//@ func redisDict.remove
+//@ trusted
+//@ requires rd != nil
+//@ requires [C08,C16] locked: held
+//@ modifies redisDict redisDictItem alloc
+//@ ensures exists ==> rd.dirty
+//@ ensures rd.count >= 0
+//@ effect if !mutated : mutated = uf_removed(rd, key)
+
+//@ uf uf_removed(rd *redisDict, key string) bool
+
+//@ func redisDict.createIterator
+//@ trusted
+//@ requires rd != nil
+//@ requires [C08,C16] locked: held
+//@ modifies alloc redisDictIter
+//@ ensures result != nil && result.dict == rd
+
+//@ func redisDictIter.next
+//@ trusted
+//@ requires rdi != nil && rdi.dict != nil
+//@ requires [C08,C16] locked: held
+//@ modifies redisDictIter
+
+//@ func redisDict.clone
+//@ trusted
+//@ requires rd != nil
+//@ requires [C08,C16] locked: held
+//@ modifies alloc redisDict
+//@ ensures result != nil
+
+//@ func redisDict.pickRandomItems
+//@ trusted
+//@ pure
+//@ requires rd != nil
+//@ requires [C08,C16] locked: held
+
+//@ func redisDict.pickUniqueRandomItems
+//@ trusted
+//@ pure
+//@ requires rd != nil
+//@ requires [C08,C16] locked: held
+
+// ---- key objects
+
+//@ func dataStore.getStoreKey
+//@ trusted relies on the keyspace invariant: every value stored in ds.data is a non-nil *storeKey that satisfies skWF (established by newStoreKeyUnlocked/copy/move, the only writers)
+//@ requires ds != nil && ds.data != nil
+//@ requires [C08,C16] locked: held
+//@ modifies storeKey.lastAccess
+//@ ensures exists == (sk != nil)
+//@ ensures exists ==> skWF(sk)
+
+//@ func dataStoreCommand.getKeyObjectUnlocked
+//@ prop C08 C06
+//@ guards on
+//@ safetyprop C13
+//@ requires dscOK(dsc)
+//@ requires [C08,C16] locked: held
+//@ modifies storeKey.lastAccess
+//@ ensures exists == (sk != nil)
+//@ ensures exists ==> skWF(sk)
+//@ ensures held
+
+//@ func dataStoreCommand.setDirty
+//@ prop C08 C19
+//@ guards on
+//@ safetyprop C13
+//@ requires dscOK(dsc)
+//@ requires [C08,C16] locked: held
+//@ modifies redisDict.dirty
+//@ ensures dsc.ds.data.dirty
+//@ ensures held
+
+//@ define accessor
+//@ prop C08 C06
+//@ guards on
+//@ safetyprop C13
+//@ pure
+//@ requires sk != nil && skWF(sk)
+//@ requires [C08,C16] locked: held
+//@ end
+
+//@ func storeKey.getStringBytes
+//@ include accessor
+//@ ensures (result != nil) == flagHasOne(sk.flags, FLAG_KEY_TYPE_STRING)
+
+//@ func storeKey.getList
+//@ include accessor
+//@ ensures (result != nil) == flagHasOne(sk.flags, FLAG_KEY_TYPE_LIST)
+
+//@ func storeKey.getHashTable
+//@ include accessor
+//@ ensures (result != nil) == flagHasOne(sk.flags, FLAG_KEY_TYPE_HASH_TABLE)
+
+//@ func storeKey.getSet
+//@ include accessor
+//@ ensures (result != nil) == flagHasOne(sk.flags, FLAG_KEY_TYPE_SET)
+
+//@ func dataStore.newStoreKeyUnlocked
+//@ prop C08 C06
+//@ guards on
+//@ safetyprop C13
+//@ requires ds != nil && ds.data != nil
+//@ requires [C08,C16] locked: held
+//@ modifies dataStore.dataObjectNumber storeKey redisDict redisDictItem alloc ghost.mutated
+//@ ensures result != nil && result.flags == 0 && result.payload == nil
+//@ ensures held && mutated && ds.data.dirty
+
+// ---- generated: one block per dataStoreCommand method
+
+//@ func dataStoreCommand.dumpKey
+//@ prop C08 C16
+//@ guards on
+//@ safetyprop C13
+//@ requires dscOK(dsc)
+//@ requires [C08,C16] unlocked: !held
+//@ ensures released: !held
+
+//@ func dataStoreCommand.setKey
+//@ prop C08 C16
+//@ guards on
+//@ safetyprop C13
+//@ requires dscOK(dsc)
+//@ requires [C08,C16] unlocked: !held
+//@ ensures released: !held
+
+//@ func dataStoreCommand.setKeys
+//@ prop C08 C16
+//@ guards on
+//@ safetyprop C13
+//@ requires dscOK(dsc)
+//@ requires [C08,C16] unlocked: !held
+//@ ensures released: !held
+
+//@ func dataStoreCommand.setRange
+//@ prop C08 C16
+//@ guards on
+//@ safetyprop C13
+//@ requires dscOK(dsc)
+//@ requires [C08,C16] unlocked: !held
+//@ ensures released: !held
+
+//@ func dataStoreCommand.getKeyObject
+//@ prop C08 C16
+//@ guards on
+//@ safetyprop C13
+//@ requires dscOK(dsc)
+//@ requires [C08,C16] unlocked: !held
+//@ ensures released: !held
+
+//@ func dataStoreCommand.getKey
+//@ prop C08 C16
+//@ guards on
+//@ safetyprop C13
+//@ requires dscOK(dsc)
+//@ requires [C08,C16] unlocked: !held
+//@ ensures released: !held
+
+//@ func dataStoreCommand.getKeyUnlocked
+//@ prop C08 C16
+//@ guards on
+//@ safetyprop C13
+//@ requires dscOK(dsc)
+//@ requires [C08,C16] locked: held
+//@ ensures stillheld: held
+
+//@ func dataStoreCommand.getKeyBytes
+//@ prop C08 C16
+//@ guards on
+//@ safetyprop C13
+//@ requires dscOK(dsc)
+//@ requires [C08,C16] unlocked: !held
+//@ ensures released: !held
+
+//@ func dataStoreCommand.getKeys
+//@ prop C08 C16
+//@ guards on
+//@ safetyprop C13
+//@ requires dscOK(dsc)
+//@ requires [C08,C16] unlocked: !held
+//@ ensures released: !held
+
+//@ func dataStoreCommand.getKeySetExpiration
+//@ prop C08 C16
+//@ guards on
+//@ safetyprop C13
+//@ requires dscOK(dsc)
+//@ requires [C08,C16] unlocked: !held
+//@ ensures released: !held
+
+//@ func dataStoreCommand.getDeleteKey
+//@ prop C08 C16
+//@ guards on
+//@ safetyprop C13
+//@ requires dscOK(dsc)
+//@ requires [C08,C16] unlocked: !held
+//@ ensures released: !held
+
+//@ func dataStoreCommand.keys
+//@ prop C08 C16
+//@ guards on
+//@ safetyprop C13
+//@ requires dscOK(dsc)
+//@ requires [C08,C16] unlocked: !held
+//@ ensures released: !held
+
+//@ func dataStoreCommand.addInt
+//@ prop C08 C16
+//@ guards on
+//@ safetyprop C13
+//@ requires dscOK(dsc)
+//@ requires [C08,C16] unlocked: !held
+//@ ensures released: !held
+
+//@ func dataStoreCommand.addFloat
+//@ prop C08 C16
+//@ guards on
+//@ safetyprop C13
+//@ requires dscOK(dsc)
+//@ requires [C08,C16] unlocked: !held
+//@ ensures released: !held
+
+//@ func dataStoreCommand.getIds
+//@ prop C08 C16
+//@ guards on
+//@ safetyprop C13
+//@ requires dscOK(dsc)
+//@ requires [C08,C16] unlocked: !held
+//@ ensures released: !held
+
+//@ func dataStoreCommand.bitfieldWrite
+//@ prop C08 C16
+//@ guards on
+//@ safetyprop C13
+//@ requires dscOK(dsc)
+//@ requires [C08,C16] unlocked: !held
+//@ ensures released: !held
+
+//@ func dataStoreCommand.invertBits
+//@ prop C08 C16
+//@ guards on
+//@ safetyprop C13
+//@ requires dscOK(dsc)
+//@ requires [C08,C16] unlocked: !held
+//@ ensures released: !held
+
+//@ func dataStoreCommand.changeBits
+//@ prop C08 C16
+//@ guards on
+//@ safetyprop C13
+//@ requires dscOK(dsc)
+//@ requires len(srcKeyNames) >= 1
+//@ loop 1 invariant len(values) == ri1
+//@ loop 2 invariant ri2 > 0 ==> resultBytes != nil
+//@ requires [C08,C16] unlocked: !held
+//@ ensures released: !held
+
+//@ func dataStoreCommand.copy
+//@ prop C08 C16
+//@ guards on
+//@ safetyprop C13
+//@ requires dscOK(dsc)
+//@ requires [C08,C16] unlocked: !held
+//@ ensures released: !held
+
+//@ func dataStoreCommand.move
+//@ prop C08 C16
+//@ guards on
+//@ safetyprop C13
+//@ requires dscOK(dsc)
+//@ requires [C08,C16] unlocked: !held
+//@ ensures released: !held
+
+//@ func dataStoreCommand.del
+//@ prop C08 C16
+//@ guards on
+//@ safetyprop C13
+//@ requires dscOK(dsc)
+//@ requires [C08,C16] unlocked: !held
+//@ ensures released: !held
+
+//@ func dataStoreCommand.exists
+//@ prop C08 C16
+//@ guards on
+//@ safetyprop C13
+//@ requires dscOK(dsc)
+//@ requires [C08,C16] unlocked: !held
+//@ ensures released: !held
+
+//@ func dataStoreCommand.dump
+//@ prop C08 C16
+//@ guards on
+//@ safetyprop C13
+//@ requires dscOK(dsc)
+//@ requires [C08,C16] unlocked: !held
+//@ ensures released: !held
+
+//@ func dataStoreCommand.restore
+//@ prop C08 C16
+//@ guards on
+//@ safetyprop C13
+//@ requires dscOK(dsc)
+//@ requires [C08,C16] unlocked: !held
+//@ ensures released: !held
+
+//@ func dataStoreCommand.expire
+//@ prop C08 C16
+//@ guards on
+//@ safetyprop C13
+//@ requires dscOK(dsc)
+//@ requires [C08,C16] unlocked: !held
+//@ ensures released: !held
+
+//@ func dataStoreCommand.expireTime
+//@ prop C08 C16
+//@ guards on
+//@ safetyprop C13
+//@ requires dscOK(dsc)
+//@ requires [C08,C16] unlocked: !held
+//@ ensures released: !held
+
+//@ func dataStoreCommand.persist
+//@ prop C08 C16
+//@ guards on
+//@ safetyprop C13
+//@ requires dscOK(dsc)
+//@ requires [C08,C16] unlocked: !held
+//@ ensures released: !held
+
+//@ func dataStoreCommand.randomKey
+//@ prop C08 C16
+//@ guards on
+//@ safetyprop C13
+//@ requires dscOK(dsc)
+//@ requires [C08,C16] unlocked: !held
+//@ ensures released: !held
+
+//@ func dataStoreCommand.dictScanUnlocked
+//@ prop C08 C16
+//@ guards on
+//@ safetyprop C13
+//@ requires dscOK(dsc)
+//@ requires [C08,C16] locked: held
+//@ ensures stillheld: held
+
+//@ func dataStoreCommand.scan
+//@ prop C08 C16
+//@ guards on
+//@ safetyprop C13
+//@ requires dscOK(dsc)
+//@ requires [C08,C16] unlocked: !held
+//@ ensures released: !held
+
+//@ func dataStoreCommand.touch
+//@ prop C08 C16
+//@ guards on
+//@ safetyprop C13
+//@ requires dscOK(dsc)
+//@ requires [C08,C16] unlocked: !held
+//@ ensures released: !held
+
+//@ func dataStoreCommand.getKeyType
+//@ prop C08 C16
+//@ guards on
+//@ safetyprop C13
+//@ requires dscOK(dsc)
+//@ requires [C08,C16] unlocked: !held
+//@ ensures released: !held
+
+//@ func dataStoreCommand.getListUnlocked
+//@ prop C08 C16
+//@ guards on
+//@ safetyprop C13
+//@ requires dscOK(dsc)
+//@ requires [C08,C16] locked: held
+//@ ensures stillheld: held
+
+//@ func dataStoreCommand.ensureListUnlocked
+//@ prop C08 C16
+//@ guards on
+//@ safetyprop C13
+//@ requires dscOK(dsc)
+//@ requires [C08,C16] locked: held
+//@ ensures stillheld: held
+
+//@ func dataStoreCommand.newListUnlocked
+//@ prop C08 C16
+//@ guards on
+//@ safetyprop C13
+//@ requires dscOK(dsc)
+//@ requires [C08,C16] locked: held
+//@ ensures stillheld: held
+
+//@ func dataStoreCommand.lpushUnlocked
+//@ prop C08 C16
+//@ guards on
+//@ safetyprop C13
+//@ requires dscOK(dsc)
+//@ requires [C08,C16] locked: held
+//@ ensures stillheld: held
+
+//@ func dataStoreCommand.lpush
+//@ prop C08 C16
+//@ guards on
+//@ safetyprop C13
+//@ requires dscOK(dsc)
+//@ requires [C08,C16] unlocked: !held
+//@ ensures released: !held
+
+//@ func dataStoreCommand.lpushx
+//@ prop C08 C16
+//@ guards on
+//@ safetyprop C13
+//@ requires dscOK(dsc)
+//@ requires [C08,C16] unlocked: !held
+//@ ensures released: !held
+
+//@ func dataStoreCommand.lpopUnlocked
+//@ prop C08 C16
+//@ guards on
+//@ safetyprop C13
+//@ requires dscOK(dsc)
+//@ requires [C08,C16] locked: held
+//@ ensures stillheld: held
+
+//@ func dataStoreCommand.lpop
+//@ prop C08 C16
+//@ guards on
+//@ safetyprop C13
+//@ requires dscOK(dsc)
+//@ requires [C08,C16] unlocked: !held
+//@ ensures released: !held
+
+//@ func dataStoreCommand.rpushUnlocked
+//@ prop C08 C16
+//@ guards on
+//@ safetyprop C13
+//@ requires dscOK(dsc)
+//@ requires [C08,C16] locked: held
+//@ ensures stillheld: held
+
+//@ func dataStoreCommand.rpush
+//@ prop C08 C16
+//@ guards on
+//@ safetyprop C13
+//@ requires dscOK(dsc)
+//@ requires [C08,C16] unlocked: !held
+//@ ensures released: !held
+
+//@ func dataStoreCommand.rpushx
+//@ prop C08 C16
+//@ guards on
+//@ safetyprop C13
+//@ requires dscOK(dsc)
+//@ requires [C08,C16] unlocked: !held
+//@ ensures released: !held
+
+//@ func dataStoreCommand.rpopUnlocked
+//@ prop C08 C16
+//@ guards on
+//@ safetyprop C13
+//@ requires dscOK(dsc)
+//@ requires [C08,C16] locked: held
+//@ ensures stillheld: held
+
+//@ func dataStoreCommand.rpop
+//@ prop C08 C16
+//@ guards on
+//@ safetyprop C13
+//@ requires dscOK(dsc)
+//@ requires [C08,C16] unlocked: !held
+//@ ensures released: !held
+
+//@ func dataStoreCommand.lindex
+//@ prop C08 C16
+//@ guards on
+//@ safetyprop C13
+//@ requires dscOK(dsc)
+//@ requires [C08,C16] unlocked: !held
+//@ ensures released: !held
+
+//@ func dataStoreCommand.linsertBeforeUnlocked
+//@ prop C08 C16
+//@ guards on
+//@ safetyprop C13
+//@ requires dscOK(dsc)
+//@ requires [C08,C16] locked: held
+//@ ensures stillheld: held
+
+//@ func dataStoreCommand.linsertAfterUnlocked
+//@ prop C08 C16
+//@ guards on
+//@ safetyprop C13
+//@ requires dscOK(dsc)
+//@ requires [C08,C16] locked: held
+//@ ensures stillheld: held
+
+//@ func dataStoreCommand.linsert
+//@ prop C08 C16
+//@ guards on
+//@ safetyprop C13
+//@ requires dscOK(dsc)
+//@ requires [C08,C16] unlocked: !held
+//@ ensures released: !held
+
+//@ func dataStoreCommand.llen
+//@ prop C08 C16
+//@ guards on
+//@ safetyprop C13
+//@ requires dscOK(dsc)
+//@ requires [C08,C16] unlocked: !held
+//@ ensures released: !held
+
+//@ func dataStoreCommand.lrange
+//@ prop C08 C16
+//@ guards on
+//@ safetyprop C13
+//@ requires dscOK(dsc)
+//@ requires [C08,C16] unlocked: !held
+//@ ensures released: !held
+
+//@ func dataStoreCommand.lmove
+//@ prop C08 C16
+//@ guards on
+//@ safetyprop C13
+//@ requires dscOK(dsc)
+//@ requires [C08,C16] unlocked: !held
+//@ ensures released: !held
+
+//@ func dataStoreCommand.lmpop
+//@ prop C08 C16
+//@ guards on
+//@ safetyprop C13
+//@ requires dscOK(dsc)
+//@ requires [C08,C16] unlocked: !held
+//@ ensures released: !held
+
+//@ func dataStoreCommand.lpos
+//@ prop C08 C16
+//@ guards on
+//@ safetyprop C13
+//@ requires dscOK(dsc)
+//@ requires [C08,C16] unlocked: !held
+//@ ensures released: !held
+
+//@ func dataStoreCommand.removeUnlocked
+//@ prop C08 C16
+//@ guards on
+//@ safetyprop C13
+//@ requires dscOK(dsc)
+//@ requires [C08,C16] locked: held
+//@ ensures stillheld: held
+
+//@ func dataStoreCommand.lremove
+//@ prop C08 C16
+//@ guards on
+//@ safetyprop C13
+//@ requires dscOK(dsc)
+//@ requires [C08,C16] unlocked: !held
+//@ ensures released: !held
+
+//@ func dataStoreCommand.findListItem
+//@ prop C08 C16
+//@ guards on
+//@ safetyprop C13
+//@ requires dscOK(dsc)
+//@ requires [C08,C16] locked: held
+//@ ensures stillheld: held
+
+//@ func dataStoreCommand.lset
+//@ prop C08 C16
+//@ guards on
+//@ safetyprop C13
+//@ requires dscOK(dsc)
+//@ requires [C08,C16] unlocked: !held
+//@ ensures released: !held
+
+//@ func dataStoreCommand.ltrim
+//@ prop C08 C16
+//@ guards on
+//@ safetyprop C13
+//@ requires dscOK(dsc)
+//@ requires [C08,C16] unlocked: !held
+//@ ensures released: !held
+
+//@ func dataStoreCommand.getHashTableField
+//@ prop C08 C16
+//@ guards on
+//@ safetyprop C13
+//@ requires dscOK(dsc)
+//@ requires [C08,C16] unlocked: !held
+//@ ensures released: !held
+
+//@ func dataStoreCommand.getHashTable
+//@ prop C08 C16
+//@ guards on
+//@ safetyprop C13
+//@ requires dscOK(dsc)
+//@ requires [C08,C16] unlocked: !held
+//@ ensures released: !held
+
+//@ func dataStoreCommand.getHashTableSet
+//@ prop C08 C16
+//@ guards on
+//@ safetyprop C13
+//@ requires dscOK(dsc)
+//@ requires [C08,C16] unlocked: !held
+//@ ensures released: !held
+
+//@ func dataStoreCommand.setHashTableWorker
+//@ prop C08 C16
+//@ guards on
+//@ safetyprop C13
+//@ requires dscOK(dsc)
+//@ requires [C08,C16] unlocked: !held
+//@ ensures released: !held
+
+//@ func dataStoreCommand.setHashTableFields
+//@ prop C08 C16
+//@ guards on
+//@ safetyprop C13
+//@ requires dscOK(dsc)
+//@ requires [C08,C16] unlocked: !held
+//@ ensures released: !held
+
+//@ func dataStoreCommand.deleteHashTableFields
+//@ prop C08 C16
+//@ guards on
+//@ safetyprop C13
+//@ requires dscOK(dsc)
+//@ requires [C08,C16] unlocked: !held
+//@ ensures released: !held
+
+//@ func dataStoreCommand.fieldAddInt
+//@ prop C08 C16
+//@ guards on
+//@ safetyprop C13
+//@ requires dscOK(dsc)
+//@ requires [C08,C16] unlocked: !held
+//@ ensures released: !held
+
+//@ func dataStoreCommand.fieldAddFloat
+//@ prop C08 C16
+//@ guards on
+//@ safetyprop C13
+//@ requires dscOK(dsc)
+//@ requires [C08,C16] unlocked: !held
+//@ ensures released: !held
+
+//@ func dataStoreCommand.getHashTableFieldValues
+//@ prop C08 C16
+//@ guards on
+//@ safetyprop C13
+//@ requires dscOK(dsc)
+//@ requires [C08,C16] unlocked: !held
+//@ ensures released: !held
+
+//@ func dataStoreCommand.getHashTableRandField
+//@ prop C08 C16
+//@ guards on
+//@ safetyprop C13
+//@ requires dscOK(dsc)
+//@ requires [C08,C16] unlocked: !held
+//@ ensures released: !held
+
+//@ func dataStoreCommand.getHashTableFields
+//@ prop C08 C16
+//@ guards on
+//@ safetyprop C13
+//@ requires dscOK(dsc)
+//@ requires [C08,C16] unlocked: !held
+//@ ensures released: !held
+
+//@ func dataStoreCommand.getHashTableValues
+//@ prop C08 C16
+//@ guards on
+//@ safetyprop C13
+//@ requires dscOK(dsc)
+//@ requires [C08,C16] unlocked: !held
+//@ ensures released: !held
+
+//@ func dataStoreCommand.getHashTableCount
+//@ prop C08 C16
+//@ guards on
+//@ safetyprop C13
+//@ requires dscOK(dsc)
+//@ requires [C08,C16] unlocked: !held
+//@ ensures released: !held
+
+//@ func dataStoreCommand.hashTableScan
+//@ prop C08 C16
+//@ guards on
+//@ safetyprop C13
+//@ requires dscOK(dsc)
+//@ requires [C08,C16] unlocked: !held
+//@ ensures released: !held
+
+//@ func dataStoreCommand.getSetMember
+//@ prop C08 C16
+//@ guards on
+//@ safetyprop C13
+//@ requires dscOK(dsc)
+//@ requires [C08,C16] unlocked: !held
+//@ ensures released: !held
+
+//@ func dataStoreCommand.getSet
+//@ prop C08 C16
+//@ guards on
+//@ safetyprop C13
+//@ requires dscOK(dsc)
+//@ requires [C08,C16] unlocked: !held
+//@ ensures released: !held
+
+//@ func dataStoreCommand.setAddWorker
+//@ prop C08 C16
+//@ guards on
+//@ safetyprop C13
+//@ requires dscOK(dsc)
+//@ requires [C08,C16] unlocked: !held
+//@ ensures released: !held
+
+//@ func dataStoreCommand.setAddWorkerUnlocked
+//@ prop C08 C16
+//@ guards on
+//@ safetyprop C13
+//@ requires dscOK(dsc)
+//@ requires [C08,C16] locked: held
+//@ ensures stillheld: held
+
+//@ func dataStoreCommand.setSetMembers
+//@ prop C08 C16
+//@ guards on
+//@ safetyprop C13
+//@ requires dscOK(dsc)
+//@ requires [C08,C16] unlocked: !held
+//@ ensures released: !held
+
+//@ func dataStoreCommand.deleteSetMembers
+//@ prop C08 C16
+//@ guards on
+//@ safetyprop C13
+//@ requires dscOK(dsc)
+//@ requires [C08,C16] unlocked: !held
+//@ ensures released: !held
+
+//@ func dataStoreCommand.getSetRandMember
+//@ prop C08 C16
+//@ guards on
+//@ safetyprop C13
+//@ requires dscOK(dsc)
+//@ requires [C08,C16] unlocked: !held
+//@ ensures released: !held
+
+//@ func dataStoreCommand.getSetMembers
+//@ prop C08 C16
+//@ guards on
+//@ safetyprop C13
+//@ requires dscOK(dsc)
+//@ requires [C08,C16] unlocked: !held
+//@ ensures released: !held
+
+//@ func dataStoreCommand.getSetCount
+//@ prop C08 C16
+//@ guards on
+//@ safetyprop C13
+//@ requires dscOK(dsc)
+//@ requires [C08,C16] unlocked: !held
+//@ ensures released: !held
+
+//@ func dataStoreCommand.setScan
+//@ prop C08 C16
+//@ guards on
+//@ safetyprop C13
+//@ requires dscOK(dsc)
+//@ requires [C08,C16] unlocked: !held
+//@ ensures released: !held
+
+//@ func dataStoreCommand.setHasMember
+//@ prop C08 C16
+//@ guards on
+//@ safetyprop C13
+//@ requires dscOK(dsc)
+//@ requires [C08,C16] unlocked: !held
+//@ ensures released: !held
+
+//@ func dataStoreCommand.setHasMembers
+//@ prop C08 C16
+//@ guards on
+//@ safetyprop C13
+//@ requires dscOK(dsc)
+//@ requires [C08,C16] unlocked: !held
+//@ ensures released: !held
+
+//@ func dataStoreCommand.setOperation
+//@ prop C08 C16
+//@ guards on
+//@ safetyprop C13
+//@ requires dscOK(dsc)
+//@ requires [C08,C16] unlocked: !held
+//@ ensures released: !held
+
+//@ func dataStoreCommand.setOperationStore
+//@ prop C08 C16
+//@ guards on
+//@ safetyprop C13
+//@ requires dscOK(dsc)
+//@ requires [C08,C16] unlocked: !held
+//@ ensures released: !held
+
+//@ func dataStoreCommand.setOperationCount
+//@ prop C08 C16
+//@ guards on
+//@ safetyprop C13
+//@ requires dscOK(dsc)
+//@ requires [C08,C16] unlocked: !held
+//@ ensures released: !held
+
+//@ func dataStoreCommand.diffWorker
+//@ prop C08 C16
+//@ guards on
+//@ safetyprop C13
+//@ requires dscOK(dsc)
+//@ requires [C08,C16] locked: held
+//@ ensures stillheld: held
+
+//@ func dataStoreCommand.diffSet
+//@ prop C08 C16
+//@ guards on
+//@ safetyprop C13
+//@ requires dscOK(dsc)
+//@ requires [C08,C16] unlocked: !held
+//@ ensures released: !held
+
+//@ func dataStoreCommand.diffSetStore
+//@ prop C08 C16
+//@ guards on
+//@ safetyprop C13
+//@ requires dscOK(dsc)
+//@ requires [C08,C16] unlocked: !held
+//@ ensures released: !held
+
+//@ func dataStoreCommand.intersectWorker
+//@ prop C08 C16
+//@ guards on
+//@ safetyprop C13
+//@ requires dscOK(dsc)
+//@ requires [C08,C16] locked: held
+//@ ensures stillheld: held
+
+//@ func dataStoreCommand.intersectWithLimitWorker
+//@ prop C08 C16
+//@ guards on
+//@ safetyprop C13
+//@ requires dscOK(dsc)
+//@ requires [C08,C16] locked: held
+//@ ensures stillheld: held
+
+//@ func dataStoreCommand.intersectSet
+//@ prop C08 C16
+//@ guards on
+//@ safetyprop C13
+//@ requires dscOK(dsc)
+//@ requires [C08,C16] unlocked: !held
+//@ ensures released: !held
+
+//@ func dataStoreCommand.intersectSetStore
+//@ prop C08 C16
+//@ guards on
+//@ safetyprop C13
+//@ requires dscOK(dsc)
+//@ requires [C08,C16] unlocked: !held
+//@ ensures released: !held
+
+//@ func dataStoreCommand.intersectSetCount
+//@ prop C08 C16
+//@ guards on
+//@ safetyprop C13
+//@ requires dscOK(dsc)
+//@ requires [C08,C16] unlocked: !held
+//@ ensures released: !held
+
+//@ func dataStoreCommand.unionWorker
+//@ prop C08 C16
+//@ guards on
+//@ safetyprop C13
+//@ requires dscOK(dsc)
+//@ requires [C08,C16] locked: held
+//@ ensures stillheld: held
+
+//@ func dataStoreCommand.unionSet
+//@ prop C08 C16
+//@ guards on
+//@ safetyprop C13
+//@ requires dscOK(dsc)
+//@ requires [C08,C16] unlocked: !held
+//@ ensures released: !held
+
+//@ func dataStoreCommand.unionSetStore
+//@ prop C08 C16
+//@ guards on
+//@ safetyprop C13
+//@ requires dscOK(dsc)
+//@ requires [C08,C16] unlocked: !held
+//@ ensures released: !held
+
+//@ func dataStoreCommand.setMove
+//@ prop C08 C16
+//@ guards on
+//@ safetyprop C13
+//@ requires dscOK(dsc)
+//@ requires [C08,C16] unlocked: !held
+//@ ensures released: !held
+
+//@ func dataStoreCommand.setRemove
+//@ prop C08 C16
+//@ guards on
+//@ safetyprop C13
+//@ requires dscOK(dsc)
+//@ requires [C08,C16] unlocked: !held
+//@ ensures released: !held
+
+//@ func dataStoreCommand.save
+//@ prop C08 C16
+//@ guards on
+//@ safetyprop C13
+//@ requires dscOK(dsc)
+//@ requires [C08,C16] unlocked: !held
+//@ ensures released: !held
+
+//@ func dataStoreCommand.load
+//@ prop C08 C16
+//@ guards on
+//@ safetyprop C13
+//@ requires dscOK(dsc)
+//@ requires [C08,C16] unlocked: !held
+//@ ensures released: !held
+
+//@ func dataStoreCommand.sort
+//@ prop C08 C16
+//@ guards on
+//@ safetyprop C13
+//@ requires dscOK(dsc)
+//@ requires [C08,C16] unlocked: !held
+//@ ensures released: !held
